@@ -776,3 +776,121 @@ def c10_r6(ctx):
                    loc=ctx.nodeloc(f, c))
     if n < 40:
         raise AnalysisError("only %d self-calls scanned" % n)
+
+
+# Quantities for which 0 is an ordinary value and None means "not set".  Candidates were listed mechanically (attributes that
+# are both None-able -- assigned None / a None-default parameter / compared with `is None` -- and used in arithmetic), then each
+# was confirmed by reading; attributes for which truthiness is the intended test (compression level 0 = off, relativedelta
+# fields, strings, containers) were left out.
+ZERO_IS_A_VALUE = {
+    "_minid": "first document number of a term; document 0 exists",
+    "_maxid": "last document number of a term",
+    "_minlength": "shortest field length seen; empty fields have length 0",
+    "_maxlength": "longest field length seen",
+    "_maxweight": "largest weight seen",
+    "_docnum": "current document number",
+    "_id": "cached current document number of a union matcher (None = invalidated)",
+    "_pos": "token position counter",
+    "pos": "token position; the first token is at 0",
+    "startchar": "character offset; the first token starts at 0",
+    "endchar": "character offset",
+    "boost": "a boost of 0.0 is a value",
+    "_nextdoc": "next parent document number (None = exhausted)",
+    "_nextchild": "next child document number",
+}
+
+
+def _truth_operands(e, out):
+    if isinstance(e, ast.UnaryOp) and isinstance(e.op, ast.Not):
+        _truth_operands(e.operand, out)
+    elif isinstance(e, ast.BoolOp):
+        for v in e.values:
+            _truth_operands(v, out)
+    else:
+        out.append(e)
+
+
+def truthiness_tested(funcnode):
+    """expressions whose truth value is tested: if/while/assert/conditional-expression tests and every operand but the last
+    of and/or (through `not`)"""
+    out = []
+    for n in ast.walk(funcnode):
+        if isinstance(n, (ast.If, ast.While, ast.IfExp, ast.Assert)):
+            _truth_operands(n.test, out)
+        elif isinstance(n, ast.BoolOp):
+            for v in n.values[:-1]:
+                _truth_operands(v, out)
+        elif isinstance(n, ast.comprehension):
+            for c in n.ifs:
+                _truth_operands(c, out)
+    return out
+
+
+def _falsy_literal(e):
+    return (isinstance(e, ast.Constant) and not e.value) or (isinstance(e, (ast.List, ast.Tuple, ast.Dict, ast.Set)) and not getattr(e, "elts", getattr(e, "keys", None)))
+
+
+@rule("C10", "R7", "K2", "quantities for which 0 is a value are tested with `is None`, never by truthiness",
+      min_instances=1, also=("C09", "C17", "C11", "C13"),
+      clause="No if/while/and/or/not/conditional-expression anywhere tests the truth value of a document number, position, "
+             "character offset, length/weight extreme or boost attribute (table ZERO_IS_A_VALUE), nor of a local that starts as "
+             "None and is used in arithmetic with a number; `d.get(k) or default` is not used where the default is a numeric "
+             "setting (a stored 0 / 0.0 would be taken for 'missing').")
+def c10_r7(ctx):
+    prog = ctx.prog
+    nfunc = 0
+    for f in prog.functions.values():
+        if f.module.name.startswith("whoosh.support.") or f.module.name.startswith("whoosh.lang."):
+            continue
+        nfunc += 1
+        tested = truthiness_tested(f.node)
+        for e in tested:
+            if isinstance(e, ast.Attribute) and e.attr in ZERO_IS_A_VALUE:
+                ctx.saw(f)
+                ctx.ob(f, False, "`%s` is tested with `is None`, not by truthiness" % norm.canon(e),
+                       detail="%s: the value 0 would be treated as 'not set'" % ZERO_IS_A_VALUE[e.attr], loc=ctx.nodeloc(f, e))
+        # locals: start as None, take part in arithmetic with a number
+        an = norm.assigned_names(f.node)
+        none_init = set(nm for nm, vals in an.items() if any(isinstance(v, ast.Constant) and v.value is None for v in vals if v is not None))
+        arith = set()
+        for n in ast.walk(f.node):
+            if isinstance(n, ast.BinOp) and isinstance(n.op, (ast.Add, ast.Sub)):
+                for a_, b_ in ((n.left, n.right), (n.right, n.left)):
+                    if isinstance(a_, ast.Name) and isinstance(b_, ast.Constant) and isinstance(b_.value, (int, float)) and not isinstance(b_.value, bool):
+                        arith.add(a_.id)
+            if isinstance(n, ast.AugAssign) and isinstance(n.op, (ast.Add, ast.Sub)) and isinstance(n.target, ast.Name) \
+                    and isinstance(n.value, ast.Constant) and isinstance(n.value.value, (int, float)):
+                arith.add(n.target.id)
+        for e in tested:
+            if isinstance(e, ast.Name) and e.id in none_init and e.id in arith:
+                ctx.saw(f)
+                ctx.ob(f, False, "local `%s` (None = not set yet, then a number) is tested with `is None`, not by truthiness" % e.id,
+                       detail="when the number is 0 the variable looks unset again", loc=ctx.nodeloc(f, e))
+        # d.get(k) or <numeric setting>
+        num_attrs = set()
+        if f.cls is not None:
+            init = prog.lookup(f.cls, "__init__")
+            if init is not None:
+                a = init.node.args
+                pos = [x.arg for x in a.args]
+                defaults = dict(zip(pos[len(pos) - len(a.defaults):], a.defaults))
+                nump = set(p for p, d in defaults.items() if isinstance(d, ast.Constant) and isinstance(d.value, (int, float)) and not isinstance(d.value, bool))
+                for st in ast.walk(init.node):
+                    if isinstance(st, ast.Assign) and isinstance(st.value, ast.Name) and st.value.id in nump:
+                        for t in st.targets:
+                            if isinstance(t, ast.Attribute) and isinstance(t.value, ast.Name) and t.value.id == "self":
+                                num_attrs.add(t.attr)
+        for n in ast.walk(f.node):
+            if isinstance(n, ast.BoolOp) and isinstance(n.op, ast.Or) and len(n.values) == 2:
+                l, r = n.values
+                if isinstance(l, ast.Call) and norm.call_name(l) == "get" and not _falsy_literal(r):
+                    numeric_default = (isinstance(r, ast.Constant) and isinstance(r.value, (int, float))) or \
+                        (isinstance(r, ast.Attribute) and isinstance(r.value, ast.Name) and r.value.id == "self" and r.attr in num_attrs)
+                    if numeric_default:
+                        ctx.saw(f)
+                        ctx.ob(f, False, "`%s` does not use `or` to supply a numeric default" % norm.canon(n)[:80],
+                               detail="a stored 0 / 0.0 is falsy and is replaced by the default: test membership or `is None` instead",
+                               loc=ctx.nodeloc(f, n))
+    ctx.ob("whole program", nfunc > 2000, "%d functions scanned for truthiness tests of zero-valued quantities" % nfunc)
+    if nfunc < 2000:
+        raise AnalysisError("only %d functions scanned" % nfunc)
